@@ -186,6 +186,9 @@ J gen_tunnel(uint64_t seed, const J &ov)
 		f.set("max_delay_us", (long long)(r.chance(0.5) ? r.range(1000, 300000) : r.range(300000, 30000000)));
 		if (ov.getb("trunc")) { f.set("p_trunc", r.uniform() * 0.3); f.set("p_flip", r.chance(0.5) ? r.uniform() * 0.1 : 0.0); }
 		cfg.set("faults", f);
+		// in a quarter of the runs the path also transforms what it carries (id rewriting, case randomisation, refused types, size
+		// limits ...): negotiation may then fail or pick other settings, but whatever gets through must still be what was sent
+		if (!ov.getb("trunc") && r.chance(0.25)) cfg.set("relay", gen_relay(r));
 		cfg.set("dur_s", (int)(W + 40));
 		cfg.set("tmax_s", 700);
 	} else if (mode == "stale") {
